@@ -142,35 +142,61 @@ def run(prog: Program, L: Ledger) -> None:
     c14.verlet_constrained(prog, L, "K2")
 
     # ---- K3
+    from ..dataflow import Inliner
+    from ..normalize import flat
+    from ..sym import DIFFERENT, EQUAL, Translator, Unsupported, Vocabulary, same, sp
+
     fb = prog.cls("ForceBias")
-    step = fb.methods.get("step")
-    if step is None:
+    step0 = fb.methods.get("step")
+    if step0 is None:
         raise AnalysisError("ForceBias.step missing")
-    order = []
-    corr_name = None
-    for st in step.body():
-        if isinstance(st, ast.Expr) and isinstance(st.value, ast.Call):
-            fn = norm(st.value.func)
-            if fn == "self.atoms.set_momenta":
-                order.append(("set_momenta", st))
-            elif fn == "self.atoms.set_positions":
-                order.append(("set_positions", st))
-        elif isinstance(st, ast.Assign) and "self.atoms.get_momenta()" in norm(st.value):
-            order.append(("read_back", st))
-            corr_name = norm(st.targets[0])
-    seq = [k for k, _ in order]
-    L.check(seq == ["set_momenta", "read_back", "set_positions"], "K3", "ForceBias.step:order", step.where,
-            f"momentum round trip is `{seq}`, expected set_momenta → get_momenta → set_positions", "FixCom cannot remove the centre-of-mass drift from the displacement", ",".join(seq))
-    if seq == ["set_momenta", "read_back", "set_positions"]:
-        rb = order[1][1]
-        L.check(norm(rb.value) in ("self.atoms.get_momenta() / self.shaped_masses",), "K3", "ForceBias.step:read-back", f"{step.module.relpath}:{rb.lineno}",
-                f"corrected displacement is `{norm(rb.value)}`, not get_momenta()/masses", "", norm(rb.value))
-        spc = order[2][1].value
-        a0 = norm(spc.args[0])
-        L.check(corr_name is not None and corr_name in a0 and "displacement" not in a0.replace(corr_name, ""), "K3", "ForceBias.step:applied", f"{step.module.relpath}:{spc.lineno}",
-                f"positions advance by `{a0}`, not by the displacement read back after the constraints adjusted the momenta", "with FixCom the centre of mass drifts", a0)
+    step = flat(prog, step0, fb)
+    sbody = step.body()
+
+    def top_index(node):
+        for i, st in enumerate(sbody):
+            if any(x is node for x in ast.walk(st)):
+                return i
+        return -1
+
+    all_calls = [c for c in calls_in(step.node)]
+    sm = [c for c in all_calls if norm(c.func) == "self.atoms.set_momenta"]
+    spp = [c for c in all_calls if norm(c.func) == "self.atoms.set_positions"]
+    gm = [c for c in all_calls if norm(c.func) == "self.atoms.get_momenta"]
+    seq = sorted([(top_index(c), "set_momenta") for c in sm] + [(top_index(c), "set_positions") for c in spp] + [(top_index(c), "read_back") for c in gm])
+    names = [k for _i, k in seq]
+    ok_order = len(sm) == 1 and len(spp) == 1 and len(gm) >= 1 and all(top_index(sm[0]) < top_index(g) <= top_index(spp[0]) for g in gm) and all(i >= 0 for i, _k in seq)
+    L.check(ok_order, "K3", "ForceBias.step:order", step0.where,
+            f"momentum round trip is `{names}`, expected set_momenta → get_momenta → set_positions at the top level of the step", "FixCom cannot remove the centre-of-mass drift from the displacement", ",".join(names))
+    if ok_order:
+        inl = Inliner(step.node)
+        spc = spp[0]
+        smc = sm[0]
+        arg = inl.inline(spc.args[0]) if spc.args else None
+        vocab = Vocabulary({"self.atoms.get_momenta()": ("Pback", {"real": True}), "self.shaped_masses": ("msh", {"positive": True}),
+                            "self.atoms.get_positions()": ("X0", {"real": True}), "self.atoms.positions.copy()": ("X0", {"real": True})})
+        tr = Translator(vocab)
+        try:
+            got = tr.tr(arg)
+        except Unsupported as exc:
+            raise AnalysisError(f"ForceBias.step: position update `{norm(arg)[:80]}`: {exc}") from exc
+        want = vocab.sym("X0", real=True) + vocab.sym("Pback", real=True) / vocab.sym("msh", positive=True)
+        verdict, wit = same(sp.sympify(got), want)
+        a0 = norm(arg)
+        if verdict == EQUAL:
+            L.ok("K3", "ForceBias.step:applied", f"{step0.module.relpath}:{spc.lineno}")
+            L.ok("K3", "ForceBias.step:read-back", f"{step0.module.relpath}:{spc.lineno}")
+        elif verdict == DIFFERENT:
+            L.violation("K3", "ForceBias.step:applied", f"{step0.module.relpath}:{spc.lineno}",
+                        f"positions become `{a0[:100]}`, not (positions before the step) + get_momenta()/masses read back after the constraints adjusted the momenta ({wit})", "with FixCom the centre of mass drifts", a0[:120])
+        else:
+            raise AnalysisError(f"ForceBias.step: position update `{a0[:80]}` undecided: {wit}")
+        # the saved positions are those of the live atoms before anything was written
+        pos_defs = [st for st in walk_no_nested(step.node) if isinstance(st, ast.Assign) and any(isinstance(t, ast.Name) and t.id in {n.id for n in ast.walk(spc.args[0]) if isinstance(n, ast.Name)} for t in st.targets)
+                    and norm(st.value) in ("self.atoms.get_positions()", "self.atoms.positions.copy()")]
+        if pos_defs:
+            L.check(all(top_index(d) < top_index(smc) for d in pos_defs), "K3", "ForceBias.step:base-positions", step0.where, "the base positions are read after the momenta were written", "", "base")
         kws = {k.arg: norm(k.value) for k in spc.keywords}
-        L.check(kws.get("apply_constraint", "True") == "True", "K3", "ForceBias.step:set_positions", f"{step.module.relpath}:{spc.lineno}", "position update switches constraints off", "fixed atoms move", "apply_constraint")
-        smc = order[0][1].value
+        L.check(kws.get("apply_constraint", "True") == "True", "K3", "ForceBias.step:set_positions", f"{step0.module.relpath}:{spc.lineno}", "position update switches constraints off", "fixed atoms move", "apply_constraint")
         kws = {k.arg: norm(k.value) for k in smc.keywords}
-        L.check(kws.get("apply_constraint", "True") == "True", "K3", "ForceBias.step:set_momenta", f"{step.module.relpath}:{smc.lineno}", "momentum update switches constraints off", "FixCom/FixAtoms do not act on the displacement", "apply_constraint")
+        L.check(kws.get("apply_constraint", "True") == "True", "K3", "ForceBias.step:set_momenta", f"{step0.module.relpath}:{smc.lineno}", "momentum update switches constraints off", "FixCom/FixAtoms do not act on the displacement", "apply_constraint")
